@@ -328,7 +328,7 @@ func addWitness(ev map[string]any) {
 var progDataDesc = mustParse(`[ i |-> <<"int", 2>>, j |-> <<"int", -7>>, f |-> <<"f64", FALSE, <<1,5>>, -1>>, d |-> <<"dec", FALSE, <<1,2,5>>, -2>>, z |-> <<"int", 0>>,
   s |-> <<"str", <<97,98>>>>, e |-> <<"str", <<>>>>, w |-> <<"str", <<32,97,32>>>>, b |-> <<"bool", TRUE>>, nb |-> <<"bool", FALSE>>, nl |-> <<"nil">>, np |-> <<"nilptr">>,
   m |-> <<"map", [k |-> <<"int", 1>>, s |-> <<"str", <<120>>>>, n |-> <<"nil">>, m |-> <<"map", [k |-> <<"int", 5>>]>>]>>, tm |-> <<"tmapint", [z |-> 0, o |-> 1]>>,
-  st |-> <<"struct", [A |-> <<"int", 1>>, B |-> <<"str", <<98>>>>, N |-> <<"nilptr">>], <<"c">>>>,
+  st |-> <<"struct", [A |-> <<"int", 1>>, B |-> <<"str", <<98>>>>, N |-> <<"nilptr">>, P |-> <<"int", 3>>], <<"c">>>>,
   sl |-> <<"slice", <<<<"int", 1>>, <<"str", <<98>>>>, <<"nil">>>>>>, ss |-> <<"strs", <<<<97>>, <<98>>>>>>, t |-> <<"time", 19000, 3600000, 0>>,
   rec |-> <<"func", "rec">>, fail |-> <<"func", "fail">>, failv |-> <<"func", "failv">>, add2 |-> <<"func", "add2">>, cat |-> <<"func", "cat">>, recs |-> <<"func", "recs">>,
   nan |-> <<"f64nan">>, inf |-> <<"f64inf", FALSE>> ]`)
